@@ -839,7 +839,7 @@ func TestC04_Product(t *testing.T) {
 // TestC04_Sweep: every key x every wire class, on fully populated valid
 // tokens of both profiles.
 func TestC04_Sweep(t *testing.T) {
-	st := NewStats("C04", "TestC04_Sweep", "enumeration: on fully populated valid tokens of both profiles (3 backgrounds, incl. all optional claims, 2 components with all optional fields, the profile-1 no-measurements form) every known key and every component field x every wire class: null, undefined, each of ~26 items of the wrong major type, every out-of-width integer, 9 tags, indefinite forms (whole and chunked), 3 non-preferred head widths, 5 duplicate-key variants; and every key order rotation. Oracle and verdict rules as in TestC04_Product. Non-trivial = every mutated case; distinct = (background, key, class)")
+	st := NewStats("C04", "TestC04_Sweep", "enumeration: on fully populated valid tokens of both profiles (3 backgrounds, incl. all optional claims, 2 components with all optional fields, the profile-1 no-measurements form) every known key and every component field x every wire class: null, undefined, each of ~26 items of the wrong major type, every out-of-width integer, 9 tags, indefinite forms (whole and chunked), 3 non-preferred head widths, 5 duplicate-key variants; every key order rotation; 28 spellings of profile names (look-alikes that URL / case / whitespace normalisation would map onto a registered name) under the profile key. Oracle and verdict rules as in TestC04_Product. Non-trivial = every mutated case; distinct = (background, key, class)")
 	st.Exhaustive = true
 	st.Require = []string{"accepted", "rejected", "open-accepted", "P1", "P2"}
 	defer st.Flush(t)
@@ -897,6 +897,16 @@ func TestC04_Sweep(t *testing.T) {
 						root.Pairs = append(root.Pairs, icbor.P(icbor.I(k), v))
 						run(p, m, root, nil, fmt.Sprintf("%sunknown-key/%d/#%d", pre, k, vi))
 					}
+				}
+			}
+			// every spelling of a profile name that some normalisation (URL,
+			// case, whitespace, escapes) would map onto a registered name,
+			// under the profile's key: none of them is the profile's name
+			if variant == 0 {
+				for ni, name := range c07Names {
+					m := mk()
+					m.Profile = sp(name)
+					run(p, m, m.WireNode(), nil, fmt.Sprintf("%sprofile-spelling/#%d", pre, ni))
 				}
 			}
 			// rule-level sweep on the wire: every byte-string claim and
